@@ -31,7 +31,9 @@ EXPLANATION = (
     'R-C03.9 / R-C03.10 are R-C01.8 / R-C01.9: both are ways in which merging operations into one rebuild gives a different schema than applying them one at a time; '
     'R-C03.11 folding a rename chain copies the whole target (name, db_column, db_table); R-C03.12 the per-model regrouping is segmented at RenameModel / DeleteModel (known finding); R-C03.13 the merged rebuild\'s data copy skips exactly the deleted columns (shared with R-C02.1/.2).'
     ' '
-    'R-C03.14 a mutation never stores one of its own containers (**field_attrs, ...) by reference into a signature (plain attribute store or a constructor that keeps the reference; property setters that copy are recognised); R-C03.15 no write to a local container after it was handed to a signature constructor that keeps `param or <fresh>`.')
+    'R-C03.14 a mutation never stores one of its own containers (**field_attrs, ...) by reference into a signature (plain attribute store or a constructor that keeps the reference; property setters that copy are recognised); R-C03.15 no write to a local container after it was handed to a signature constructor that keeps `param or <fresh>`.'
+    ' '
+    'R-C03.7 also fires when BaseMutation.__hash__ is not identity-based while __eq__ is structural (every membership test is then an equality test).')
 NOT_DECIDED = (
     'Equivalence of the optimised run and the one-at-a-time run (signature, '
     'schema, rows) for all sequences: needs execution of both.')
@@ -559,7 +561,10 @@ def r7_identity_membership(ctx, rule_id='R-C03.7'):
     identity = hs is not None and any(
         isinstance(c, ast.Call) and call_name(c) == 'id'
         for c in walk_no_nested(hs.node))
-    if not (structural and identity):
+    # structural __eq__ with a value-based (or constant) __hash__ makes
+    # membership in *every* container an equality test
+    all_equality = structural and hs is not None and not identity
+    if not structural or (hs is None):
         ctx.info('BaseMutation no longer has structural __eq__ with identity '
                  '__hash__; membership containers are unconstrained')
         ctx.ok(base.methods.get('__eq__') or ('django_evolution.mutations.'
@@ -627,7 +632,20 @@ def r7_identity_membership(ctx, rule_id='R-C03.7'):
                                             v, ast.Call) and \
                                             call_name(v) == 'set':
                                         kinds.add('hash')
-                if 'list' in kinds:
+                if all_equality:
+                    ctx.finding(fn, c, 'membership of a mutation in %r is an '
+                                'equality test: BaseMutation.__eq__ compares '
+                                'the hint text and __hash__ (%s) no longer '
+                                'tells two equal mutation objects apart, so '
+                                'a kept mutation that equals a removed one '
+                                '(add, delete, add the same field again) is '
+                                'dropped with it' % (
+                                    cont, ' '.join(unparse(
+                                        [r for r in walk_no_nested(hs.node)
+                                         if isinstance(r, ast.Return)][0]
+                                    ).split())),
+                                key='equality-membership:%s' % cont)
+                elif 'list' in kinds:
                     ctx.finding(fn, c, 'membership of a mutation is tested '
                                 'against the sequence %r: BaseMutation.__eq__ '
                                 'is structural, so a kept mutation that equals '
